@@ -222,6 +222,8 @@ def _conc2(kp, pre, a1, b1, a2):
         segs = [(0, a1), (1, b1)] + ([(0, a2)] if a2 else [])
         rt.begin(('conc2', kinds, CONC_PRE[pre], segs))
         sched.run_schedule(m, procs, segs)
+        if max(len(p.log) for p in procs) >= 64:
+            return rt.fail('C04:bound-too-small', 'a process made %d system calls; switch points only range over 0..63' % max(len(p.log) for p in procs))
         label = 'conc2:%s:%s' % ('+'.join(kinds), CONC_PRE[pre])
         x = conc_judge(before, m.snap('/'), procs, td, label, '[schedule %r]' % (segs,))
         return x if x else rt.ok()
@@ -249,10 +251,10 @@ NSTEP = 70  # a solo run takes < 60 system calls (checked by the harness)
 def w_conc2(kp: int, pre: int, a1: int, b1: int) -> str:
     """
     pre: PARTITION is None or (kp == PARTITION[0] and pre == PARTITION[1])
-    pre: 0 <= kp < 5 and 0 <= pre < 4 and 0 <= a1 < 70 and 0 <= b1 < 70
+    pre: 0 <= kp < 5 and 0 <= pre < 4 and 0 <= a1 < 64 and 0 <= b1 < 64
     post: _ == ''
     """
-    return _conc2(rt.sel(kp, 5), rt.sel(pre, 4), rt.sel(a1, 70), rt.sel(b1, 70), 0)
+    return _conc2(rt.sel(kp, 5), rt.sel(pre, 4), rt.sel(a1, 64), rt.sel(b1, 64), 0)
 
 
 def w_conc2x(kp: int, pre: int, a1: int, b1: int, a2: int) -> str:
@@ -274,7 +276,7 @@ def w_conc3(kp: int, pre: int, a1: int, b1: int, c1: int) -> str:
 
 
 def obligations(tier):
-    parts_q = [(k, p) for k in (0, 1, 3) for p in range(4)]
+    parts_q = [(k, p) for k in (0, 1, 3) for p in (0, 2)]
     parts_t = [(k, p) for k in range(5) for p in range(4)]
     obs = [
         CH('K_names_unique_and_paired', MOD, 'k_names', timeout=300, engine='K', regime='traced',
@@ -285,7 +287,7 @@ def obligations(tier):
            bounds='1..4 successive puts of entries named x or a 250-byte name (4 kinds each) x 13 pre-existing states x (<100 | >100 same-named entries with colliding random suffixes)'),
         CH('W_two_processes_2_preemptions', MOD, 'w_conc2', timeout=2400, partitions=parts_q if tier == 'quick' else parts_t,
            engine='W', regime='selector', encodes=K.PUT_FUNCS + ['vf.sched replay-stepping'], stubs=K.STUBS,
-           bounds='2 concurrent trash-put x (P0 runs a1 syscalls, P1 runs b1, then both complete), a1,b1 in 0..69 x kind pairs x 4 trash-dir pre-states'),
+           bounds='2 concurrent trash-put x (P0 runs a1 syscalls, P1 runs b1, then both complete), a1,b1 in 0..63 (a solo run is shorter: checked) x kind pairs x trash-dir pre-states (quick: 3 x 2, thorough: 5 x 4)'),
     ]
     if tier == 'thorough':
         obs.append(CH('W_two_processes_3_preemptions', MOD, 'w_conc2x', timeout=14000, partitions=parts_t, twin=False, engine='W',
